@@ -291,3 +291,61 @@ pub fn graph_params(tier: Tier) -> GraphParams {
         Tier::Thorough => GraphParams { nv: (3, 40), ..Default::default() },
     }
 }
+
+pub const MODEL_DIR: &str = "/repo/rust/routee-compass-powertrain/src/routee/test";
+
+/// energy traversal with 1-3 vehicles; speeds and grades are snapped to a grid on which the
+/// prediction-cache key is injective (so "with the cache" must equal "without the cache")
+pub fn gen_energy(r: &mut Rng, w: &mut World) {
+    use crate::world::{Traversal, VehicleCfg};
+    let ps: i32 = *r.pick(&[0, 1, 2]);
+    let pg: i32 = *r.pick(&[2, 3, 4]);
+    let snap = |x: f64, p: i32| -> f64 {
+        let m = 10f64.powi(p);
+        (x * m).round() / m
+    };
+    // few distinct speeds and grades: many edges share one key component, so a key that loses a
+    // component (or a value stored under the wrong key) shows quickly
+    let n_s = r.range(2, 6) as usize;
+    let n_g = r.range(2, 6) as usize;
+    let sp: Vec<f64> = (0..n_s).map(|_| snap(10.0 + r.f64() * 110.0, ps).max(5.0)).collect();
+    let gp: Vec<f64> = (0..n_g).map(|_| snap((r.f64() - 0.5) * 0.2, pg)).collect();
+    for s in w.speeds.iter_mut() {
+        *s = *r.pick(&sp);
+    }
+    for g in w.grades.iter_mut() {
+        *g = *r.pick(&gp);
+    }
+    let mut vehicles = vec![];
+    let kinds = ["ice", "bev", "phev"];
+    let n = r.range(1, 3) as usize;
+    let mut order: Vec<usize> = vec![0, 1, 2];
+    r.shuffle(&mut order);
+    for (i, ki) in order.into_iter().take(n).enumerate() {
+        let kind = kinds[ki];
+        let cache = if r.chance(0.75) { Some((*r.pick(&[1usize, 2, 3, 8, 1000]), ps, pg)) } else { None };
+        let (model, model2) = match kind {
+            "ice" => (format!("{}/Toyota_Camry.bin", MODEL_DIR), None),
+            "bev" => (format!("{}/2017_CHEVROLET_Bolt.bin", MODEL_DIR), None),
+            _ => (format!("{}/2016_CHEVROLET_Volt_Charge_Depleting.bin", MODEL_DIR), Some(format!("{}/2016_CHEVROLET_Volt_Charge_Sustaining.bin", MODEL_DIR))),
+        };
+        vehicles.push(VehicleCfg {
+            name: format!("{}_{}", kind, i),
+            kind: kind.to_string(),
+            model,
+            model2,
+            interpolate: r.chance(0.3),
+            cache,
+            // small batteries so that the charge runs out (and regenerates) on short routes
+            battery_kwh: *r.pick(&[0.5, 2.0, 12.0, 60.0]),
+            adjustment: if r.chance(0.5) { Some(many_digits(r, 1.0, 1.5)) } else { None },
+        });
+    }
+    w.traversal = Traversal::Energy { speed_unit: "kilometers_per_hour".into(), grade_unit: "decimal".into(), vehicles };
+    w.weights = vec![
+        ("distance".into(), many_digits(r, 0.1, 1.0)),
+        ("time".into(), many_digits(r, 0.1, 1.0)),
+        ("energy_liquid".into(), many_digits(r, 0.5, 3.0)),
+        ("energy_electric".into(), many_digits(r, 0.5, 3.0)),
+    ];
+}
